@@ -285,6 +285,8 @@ def run_jit_rules(res, ast, which):
         rule_branches(res, ast, model)
     if "MC-ADDR" in which:
         rule_mc_addr(res, ast, model)
+    if "REG-COUNT" in which:
+        rule_reg_count(res, ast)
 
 
 def base_inp(width=8, **kw):
@@ -929,3 +931,57 @@ def rule_mc_addr(res, ast, model):
         for pn in ptrs:
             res.bad("MC-ADDR", f"{CODEGEN}|emit_program|Instr::{op}|{pn}", w,
                     f"Instr::{op}: the absolute address of {pn} is embedded as an immediate: printed machine code differs between processes (ASLR)")
+
+
+def rule_reg_count(res, ast):
+    """The bytecode generator is told how many temporaries are registers; the JIT's own register table must have exactly that many
+    entries (writer's and reader's tables agree): with more, `Reg::tmp(k).unwrap()` panics in the call save/restore code for a live %k;
+    with fewer, a temporary the bytecode treats as spilled lives in a caller-saved register."""
+    import pm
+    res.rule("REG-COUNT", "the register count BaseJitCompiler::create passes to bc::CodeGen::translate equals the number of entries of the JIT's "
+             "temporary-register table (Reg::tmp) and fits the 16-bit live bitmap; the table has no duplicate and excludes the context, tape and "
+             "scratch registers", floor=3, what="obligations")
+    try:
+        tmp = ast.fn(CODEGEN, "tmp", contains="impl Reg")["node"]
+        cr = [f for f in ast.find_fns(BASEJIT, "create") if "BaseJitCompiler" in f["container"]]
+        if len(cr) != 1:
+            raise Missing("BaseJitCompiler::create")
+        cr = cr[0]["node"]
+    except Missing as m:
+        res.missing("REG-COUNT", m)
+        return
+    arrs = [a for a in walk_t(tmp["body"], "Array")]
+    regs = None
+    if len(arrs) == 1:
+        regs = [path_name(strip_paren(x)) for x in arrs[0]["elems"]]
+    else:
+        # match form: `match tmp { 0 => Some(Reg::..), .. _ => None }`
+        ms = [m for m in walk_t(tmp["body"], "Match")]
+        if len(ms) == 1:
+            regs = []
+            for a in ms[0]["arms"]:
+                if a["pat"]["t"] == "PLit":
+                    c_ = strip_paren(a["body"])
+                    regs.append(path_name(strip_paren(c_["args"][0])) if c_["t"] == "Call" and path_name(c_["func"]) == "Some" and c_["args"] else None)
+    w = where(CODEGEN, tmp, "Reg::tmp")
+    if not regs or None in regs:
+        res.bad("REG-COUNT", f"{CODEGEN}|Reg::tmp|table", w, "the temporary-register table of Reg::tmp is not a literal array / match of registers (fail closed)")
+        return
+    special = set()
+    for nm in ("cxt", "mem", "scr0", "scr1"):
+        try:
+            f_ = ast.fn(CODEGEN, nm, contains="impl Reg")["node"]
+            st_ = f_["body"]["stmts"]
+            if st_ and st_[-1]["t"] == "ExprStmt":
+                special.add(path_name(strip_paren(st_[-1]["expr"])))
+        except Missing:
+            pass
+    special |= {"Reg::Rsp"}
+    res.check(len(set(regs)) == len(regs) and not (set(regs) & special), "REG-COUNT", f"{CODEGEN}|Reg::tmp|distinct", w,
+              f"the temporary registers {regs} must be pairwise distinct and differ from the reserved registers {sorted(x for x in special if x)}")
+    calls_ = [c for c in walk_t(cr["body"], "Call") if (path_name(strip_paren(c["func"])) or "").endswith("CodeGen::translate")]
+    n = int_lit(calls_[0]["args"][1]) if len(calls_) == 1 and len(calls_[0]["args"]) == 3 else None
+    res.check(n == len(regs), "REG-COUNT", f"{BASEJIT}|create|num_regs", where(BASEJIT, cr, "BaseJitCompiler::create"),
+              f"create tells the bytecode generator that {n} temporaries are registers, the JIT's table has {len(regs)}: "
+              + ("Reg::tmp(k).unwrap() panics when %k is live across a runtime call" if n is not None and n > len(regs) else "the bytecode's spill/liveness assumptions do not match the JIT's registers"))
+    res.check(len(regs) <= 16, "REG-COUNT", f"{CODEGEN}|Reg::tmp|bitmap", w, "more than 16 register temporaries do not fit the u16 live bitmap")
